@@ -930,6 +930,13 @@ func (env *ExprEnv) binary(e *ast.BinaryExpr) TV {
 		y.CV = ycv
 		return TV{T: v.shift(e.Op, x, y), Ty: x.Ty, Sort: x.Sort}
 	}
+	// nil compared with a slice: the nil slice
+	if x.Ty == types.Typ[types.UntypedNil] && y.Sort == "Slice" {
+		x = TV{T: v.zero(y.Ty), Ty: y.Ty, Sort: "Slice"}
+	}
+	if y.Ty == types.Typ[types.UntypedNil] && x.Sort == "Slice" {
+		y = TV{T: v.zero(x.Ty), Ty: x.Ty, Sort: "Slice"}
+	}
 	if x.Ty == nil || (x.Ty == types.Typ[types.UntypedNil] && y.Ty != nil) {
 		x = env.coerce(x, y.Ty, y.Sort)
 		if x.Ty == types.Typ[types.UntypedNil] {
@@ -1392,7 +1399,8 @@ func (env *ExprEnv) call(e *ast.CallExpr) TV {
 			}
 			fail("typeis: unknown type %s", s)
 		}
-		return TV{T: fmt.Sprintf("(= (dyn_type %s) %s)", x.T, v.typeID(ty)), Ty: types.Typ[types.Bool], Sort: "Bool"}
+		// a nil interface value has no dynamic type
+		return TV{T: fmt.Sprintf("(and (not (= %s 0)) (= (dyn_type %s) %s))", x.T, x.T, v.typeID(ty)), Ty: types.Typ[types.Bool], Sort: "Bool"}
 	}
 	// pure / uf (optionally package-qualified: page.get64)
 	if i := strings.LastIndex(fname, "."); i > 0 {
